@@ -59,6 +59,10 @@ CLAIMED = {
             '(dim=<function>): on every path the score is proved equal to the minimum over all enumerated monotone couplings and the returned matching is '
             'proved to be such a coupling accumulating exactly the score.',
             'DESIGN.md#c18', 'sizes <= 3x3 (FDTW n1*n2 <= 6 in quick), p in {1, inf} everywhere, p = 2 on small free matrices', ''),
+    'C19': ('Bounded model checking of summarize() (raster geometry, getCell with its border cases, scatter of values, cell operators) on catalogue grids with symbolic observation positions anywhere '
+            'in the closed bounding box and symbolic real-or-NaN values: per path every observation is proved to lie in the closed footprint of its assigned cell, and every cell value of count / sum / '
+            'min / max / mean / median is proved equal to that aggregate over exactly the non-NaN values located there (median by rank constraints); conservation of the counts follows.',
+            'DESIGN.md#c19', 'grids 3x2 and 2x2 partial (quick) + margin and finer grids (thorough); k = 2 / 3 symbolic observations plus 2 frame observations', ''),
     'C20': ('Bounded model checking of proj_segment / proj_polyligne / mapOnTrack with the segment directions taken from a catalogue, a symbolic translation and a symbolic query point '
             '(also constrained onto the segment and onto its ends): per path the returned point is proved to lie on the indexed segment, the distance to equal the point distance, and no point '
             'S(mu), mu in [0,1] (free variable of the negated query) of any leg to be closer. Vertical segments are a recorded known finding.',
